@@ -417,6 +417,9 @@ func (e *InjectedError) Error() string { return "sim: injected " + e.Tag }
 type SinkFault struct {
 	AtCall int  `json:"at_call"`         // 1-based call number that fails; 0 = never
 	Short  bool `json:"short,omitempty"` // accept part of the data and report n>0 with the error
+	// Transient: only call AtCall fails; the destination accepts later calls
+	// again (a Writer that loses the error then completes "successfully").
+	Transient bool `json:"transient,omitempty"`
 	// NoErrShort: return n < len(p) with a nil error (a misbehaving io.Writer) is
 	// not modelled: io.Writer's contract forbids it.
 }
@@ -451,6 +454,12 @@ func (s *SimSink) Write(p []byte) (int, error) {
 	if s.Failed {
 		s.CallsAfterFail++
 		s.BytesAfterFail += len(p)
+		if s.Fault != nil && s.Fault.Transient {
+			s.Data = append(s.Data, p...)
+			s.Lens = append(s.Lens, len(p))
+			s.Log.Ev(tid, EvSinkWrite, len(p), 6, s.Name)
+			return len(p), nil
+		}
 		s.Log.Ev(tid, EvSinkWrite, len(p), 2, s.Name)
 		return 0, s.Err
 	}
